@@ -111,6 +111,126 @@ pub fn handle(req: &Value) -> Value {
             }
             json!({"results": out})
         }
+        "docs" => handle_docs(req),
         other => panic!("parse: unknown op {other}"),
     }
+}
+
+// ---- C08: whole documents ------------------------------------------------------------------
+
+use libcnb_data::buildpack::{Buildpack, BuildpackDescriptor, BuildpackTarget, ComponentBuildpackDescriptor, CompositeBuildpackDescriptor, Order, Stack};
+use libcnb_data::buildpack_plan::BuildpackPlan;
+use libcnb_data::generic::GenericMetadata;
+use libcnb_data::launch::{Launch, WorkingDirectory};
+use libcnb_data::layer_content_metadata::LayerContentMetadata;
+use libcnb_data::package_descriptor::PackageDescriptor;
+use libcnb_data::store::Store;
+use vpharness::toml_to_json;
+
+fn md_dump(m: &GenericMetadata) -> Value {
+    m.as_ref().map_or(Value::Null, |t| toml_to_json(&toml::Value::Table(t.clone())))
+}
+
+fn bp_dump(b: &Buildpack) -> Value {
+    let mut sbom: Vec<String> = b.sbom_formats.iter().map(|f| serde_json::to_value(f).unwrap().as_str().unwrap().to_string()).collect();
+    sbom.sort();
+    json!({"id": b.id.as_str(), "name": b.name, "version": [b.version.major, b.version.minor, b.version.patch], "homepage": b.homepage,
+           "clear-env": b.clear_env, "description": b.description, "keywords": b.keywords,
+           "licenses": b.licenses.iter().map(|l| json!({"type": l.r#type, "uri": l.uri})).collect::<Vec<_>>(), "sbom-formats": sbom})
+}
+
+fn stacks_dump(s: &[Stack]) -> Value {
+    json!(s.iter().map(|s| json!({"id": s.id, "mixins": s.mixins})).collect::<Vec<_>>())
+}
+
+fn targets_dump(t: &[BuildpackTarget]) -> Value {
+    json!(t.iter().map(|t| json!({"os": t.os, "arch": t.arch, "variant": t.variant,
+        "distros": t.distros.iter().map(|d| json!({"name": d.name, "version": d.version})).collect::<Vec<_>>()})).collect::<Vec<_>>())
+}
+
+fn order_dump(o: &[Order]) -> Value {
+    json!(o.iter().map(|o| o.group.iter().map(|g| json!({"id": g.id.as_str(), "version": [g.version.major, g.version.minor, g.version.patch], "optional": g.optional})).collect::<Vec<_>>()).collect::<Vec<_>>())
+}
+
+fn component_dump(d: &ComponentBuildpackDescriptor) -> Value {
+    json!({"kind": "component", "api": [d.api.major, d.api.minor], "buildpack": bp_dump(&d.buildpack), "stacks": stacks_dump(&d.stacks),
+           "targets": targets_dump(&d.targets), "metadata": md_dump(&d.metadata)})
+}
+
+fn composite_dump(d: &CompositeBuildpackDescriptor) -> Value {
+    json!({"kind": "composite", "api": [d.api.major, d.api.minor], "buildpack": bp_dump(&d.buildpack), "order": order_dump(&d.order), "metadata": md_dump(&d.metadata)})
+}
+
+fn parse_doc(ty: &str, text: &str) -> Result<Value, String> {
+    fn e<E: std::fmt::Display>(x: E) -> String {
+        format!("{x}")
+    }
+    Ok(match ty {
+        "buildpack_descriptor" => match toml::from_str::<BuildpackDescriptor>(text).map_err(e)? {
+            BuildpackDescriptor::Component(d) => component_dump(&d),
+            BuildpackDescriptor::Composite(d) => composite_dump(&d),
+        },
+        "component" => component_dump(&toml::from_str::<ComponentBuildpackDescriptor>(text).map_err(e)?),
+        "composite" => composite_dump(&toml::from_str::<CompositeBuildpackDescriptor>(text).map_err(e)?),
+        "buildpack_plan" => {
+            let p = toml::from_str::<BuildpackPlan>(text).map_err(e)?;
+            json!({"entries": p.entries.iter().map(|x| json!({"name": x.name, "metadata": toml_to_json(&toml::Value::Table(x.metadata.clone()))})).collect::<Vec<_>>()})
+        }
+        "layer_toml" => {
+            let l = toml::from_str::<LayerContentMetadata>(text).map_err(e)?;
+            json!({"types": l.types.map(|t| json!({"launch": t.launch, "build": t.build, "cache": t.cache})), "metadata": md_dump(&l.metadata)})
+        }
+        "launch" => {
+            let l = toml::from_str::<Launch>(text).map_err(e)?;
+            json!({"processes": l.processes.iter().map(|p| json!({"type": p.r#type.as_str(), "command": p.command, "args": p.args, "default": p.default,
+                        "working-dir": match &p.working_directory { WorkingDirectory::App => Value::Null, WorkingDirectory::Directory(d) => json!(d.to_string_lossy()) }})).collect::<Vec<_>>(),
+                   "labels": l.labels.iter().map(|x| json!({"key": x.key, "value": x.value})).collect::<Vec<_>>(),
+                   "slices": l.slices.iter().map(|s| json!({"paths": s.path_globs})).collect::<Vec<_>>()})
+        }
+        "store" => {
+            let s = toml::from_str::<Store>(text).map_err(e)?;
+            json!({"metadata": toml_to_json(&toml::Value::Table(s.metadata))})
+        }
+        "package" => {
+            let p = toml::from_str::<PackageDescriptor>(text).map_err(e)?;
+            json!({"buildpack": {"uri": p.buildpack.uri.to_string()}, "dependencies": p.dependencies.iter().map(|d| json!({"uri": d.uri.to_string()})).collect::<Vec<_>>(),
+                   "platform": {"os": format!("{:?}", p.platform.os).to_lowercase()}})
+        }
+        _ => panic!("doc type {ty}"),
+    })
+}
+
+/// {"op":"docs","items":[[type, text, via_file(bool)], ...], "tmp": path}
+pub fn handle_docs(req: &Value) -> Value {
+    let tmp = jstr(req, "tmp");
+    let mut out = Vec::new();
+    for it in jarr(req, "items") {
+        let it = it.as_array().unwrap();
+        let ty = it[0].as_str().unwrap();
+        let text = it[1].as_str().unwrap();
+        let r = parse_doc(ty, text);
+        let mut o = match &r {
+            Ok(v) => json!({"ok": true, "value": v}),
+            Err(e) => json!({"ok": false, "err": e}),
+        };
+        if it[2].as_bool().unwrap_or(false) {
+            // second route: read_toml_file on a real file
+            std::fs::write(tmp, text).unwrap();
+            use libcnb_common::toml_file::read_toml_file;
+            let file_ok = match ty {
+                "buildpack_descriptor" => read_toml_file::<BuildpackDescriptor>(tmp).is_ok(),
+                "component" => read_toml_file::<ComponentBuildpackDescriptor>(tmp).is_ok(),
+                "composite" => read_toml_file::<CompositeBuildpackDescriptor>(tmp).is_ok(),
+                "buildpack_plan" => read_toml_file::<BuildpackPlan>(tmp).is_ok(),
+                "layer_toml" => read_toml_file::<LayerContentMetadata>(tmp).is_ok(),
+                "launch" => read_toml_file::<Launch>(tmp).is_ok(),
+                "store" => read_toml_file::<Store>(tmp).is_ok(),
+                "package" => read_toml_file::<PackageDescriptor>(tmp).is_ok(),
+                _ => panic!(),
+            };
+            o["file_ok"] = json!(file_ok);
+        }
+        out.push(o);
+    }
+    json!({"results": out})
 }
